@@ -100,6 +100,14 @@ def main(argv):
     seed = int(argv[2]) if len(argv) > 2 else 1
     os.makedirs(outdir, exist_ok=True)
     cands = candidates()
+    # skip what earlier samples (notes/mutgen*_results.json) already tried
+    done = set()
+    notes = os.path.join(HERE, "notes")
+    for fn in os.listdir(notes) if os.path.isdir(notes) else []:
+        if fn.startswith("mutgen") and fn.endswith("_results.json"):
+            for m in json.load(open(os.path.join(notes, fn))):
+                done.add((m["file"], m["new"]))
+    cands = [c for c in cands if (c[0], c[3].strip()) not in done]
     random.Random(seed).shuffle(cands)
     cands = cands[:n]
     meta = []
